@@ -107,6 +107,17 @@ def monitor(ctx, extended=False):
             if v:
                 a = (ctx.rng.choice([v, v * (1 - 5e-8), v * (1 + 5e-8)]),) + a[1:]
                 kind = 'regime-transition'
+        if i % 7 == 3:
+            # history: the delivered-concentration model of the same slurry was evaluated first; the spatial result is then asked at exactly the
+            # concentration it derived (and 1e-7 around it, below)
+            try:
+                F.Cvt_Erhg(*a, get_dict=True)
+                cvs_ = F.Cvs_from_Cvt(*a)
+                if isinstance(cvs_, float) and 0.02 <= cvs_ <= 0.45:
+                    a = tuple(a[:7]) + (cvs_,)
+                    kind = 'after-Cvt_Erhg-call'
+            except Exception:   # noqa
+                pass
         vls, Dp, d, eps, nu, rhol, rhos, Cv = a
         inp = {'args': list(a), 'threshold': kind}
         ctx.count('evaluations')
